@@ -13,7 +13,7 @@ import urllib.request
 from pathlib import Path
 from typing import Optional
 from urllib.error import URLError
-from urllib.parse import urljoin
+from urllib.parse import quote, urljoin
 
 from ._util import find_licenses_directory
 from .extract import _LICENSEREF_PATTERN
@@ -42,7 +42,9 @@ def download_license(spdx_identifier: str) -> str:
         The license text.
     """
     # This is fairly naive, but I can't see anything wrong with it.
-    url = urljoin(_SPDX_REPOSITORY_BASE_URL, "".join((spdx_identifier, ".txt")))
+    url = urljoin(
+        _SPDX_REPOSITORY_BASE_URL, quote("".join((spdx_identifier, ".txt")))
+    )
     _LOGGER.debug("downloading license from '%s'", url)
     # TODO: Cache result?
     with urllib.request.urlopen(url) as response:
